@@ -103,6 +103,9 @@ def main():
     if not quick:
         configs += [("groups G(4): 1-3 definitions with lambda bodies that compute", 4, lambda n: groups4[n.depth]),
                     ("nested N(4): groups and calls nested in each other", 4, lambda n: nested4[n.depth])]
+    if os.environ.get("C02_ONLY") == "skeletons":
+        run_skeletons(H, quick)
+        return H.finish()
     only = os.environ.get("C02_CONFIGS")
     if only:
         configs = [c for i, c in enumerate(configs) if str(i) in only]
